@@ -6,9 +6,8 @@ open XotModel.Props
 #print axioms C09_ns_for_prefix_false
 #print axioms C09_defined
 #print axioms C09_prefix_sound
-#print axioms C09_prefix_complete_false
-#print axioms C09_prefix_complete_partial
-#print axioms C09_prefix_guard_exact
+#print axioms C09_prefix_complete
+#print axioms C09_prefix_iff
 #print axioms C09_fullname_string
 #print axioms C09_fullname_element_partial
 #print axioms C09_fullname_attribute_partial
@@ -17,6 +16,6 @@ open XotModel.Props
 #print axioms C09_node_name_ref
 #print axioms C09_inherited_sound
 #print axioms C09_unresolved_recursive
-#print axioms C09_unresolved_reports_no_namespace
-#print axioms C09_unresolved_reports_xml_namespace
+#print axioms C09_unresolved_element
+#print axioms C09_unresolved_real
 #print axioms C09_stack_invariant
